@@ -2,7 +2,7 @@
 import math
 import warnings
 
-from vlib import c17_gen, coqrun
+from vlib import c17_gen, c17_nest, coqrun
 from vlib import c17_probe as P
 from vlib.common import COQ
 from vlib.configs import Config, configs, core_configs
@@ -20,13 +20,27 @@ META = {
             "check, the exact-or-revert run-time specification yields the same value; hence never two different values. The "
             "specification and the fold model are tied to the real compiler by paired probes (literal operands / named constants / "
             "nested and cross-module constants vs calldata operands) executed on an EVM under the configuration set, and by a "
-            "differential of the real ConstantFolder and _literal_int/_literal_decimal against the model evaluated inside Coq.",
+            "differential of the real ConstantFolder and _literal_int/_literal_decimal against the model evaluated inside Coq. "
+            "NESTED expressions (extension): for every tree over literals, named constants referencing constants, + - * // % ** & | ^ << >> "
+            "unary - ~, min/max/abs/shift/uint256_addmod/uint256_mulmod/pow_mod256, list indexing, len, min_value/max_value, "
+            "as_wei_value, floor/ceil and + - * / % min max on decimals, comparisons, in/not in, not and n-ary and/or, and == != in "
+            "not-in on Decimal/Hex/Str/Bytes/bool literals (hex texts compared case-insensitively): if the ConstantFolder pass "
+            "yields v and the type checker's validation of EVERY node's folded value passes (out-of-range intermediates are "
+            "rejected), the same tree evaluated at run time over non-constant leaves (exact-or-revert per application, short-circuit "
+            "and/or) yields v -- by mutual induction with the per-operator theorems as cases; for + - * // % ** and decimal trees also "
+            "against the composition of C03's arith_spec. Tied by a differential of generated trees (depth 2-5, boundary leaves, "
+            "shuffled constant declarations) against the real front end and by folded-vs-run-time twin probes on pyrevm.",
     "level_note": "Trusted: Coq kernel + vm_compute; py2coq translator and the C17 method puller (integer instantiation of "
                   "isinstance tests; float/type-lattice guards become universally quantified oracles); ArithSpec.v / ConvSpec.v are "
                   "hand-written specifications tied to compiled code only by sampling (paired probes); decimal operators, "
                   "floor/ceil, literal conversion, list indexing and uint2str are hand models tied by differential; hashes are "
-                  "relative to an oracle shared by both sides; unsafe_*, len, epsilon are covered by paired probes only.",
-    "technique": "Coq proof over py2coq-translated source + paired-probe differential on pyrevm",
+                  "relative to an oracle shared by both sides; unsafe_*, epsilon are covered by paired probes only. "
+                  "coq/C17/NestModel.v (the folder's visit dispatch, the type checker's per-node validation of folded values, "
+                  "visit_Compare on literal kinds, the parser's collapse of unary minus over literals) is a hand model tied by the "
+                  "front-end differential and twin probes; named constants are modelled by inlining (the _get_constants fixpoint is "
+                  "exercised by shuffled declarations only); flags and struct/list constants are covered by twin probes only.",
+    "technique": "Coq proof over py2coq-translated source (per-operator kernels) composed by structural induction over expression trees + "
+                 "front-end differential + paired-probe differential on pyrevm",
 }
 
 ALL_TYPES = [(s, n) for n in range(8, 257, 8) for s in (False, True)]
@@ -1135,6 +1149,26 @@ TIE_FORM = {"shift": "shift", "abs": "abs", "min": "min", "max": "max", "uint256
             "uint256_mulmod": "uint256_mulmod", "pow_mod256": "pow_mod256", "as_wei_value": "as_wei_value"}
 
 
+NEST_DEPS = ["C17/ArithSpec.v", "C17/ConvSpec.v", "C17/GenFold.v", "C17/FoldModel.v", "C17/ConvModel.v", "C17/MiscModel.v",
+             "C17/FoldAgree.v", "C17/ConvAgree.v", "C17/MiscAgree.v"]
+
+
+def build_nest(ctx, proofs_ok):
+    """nested-expression model + proofs; content-keyed reuse: recompiled whenever GenFold.v (regenerated from /repo) or any
+    listed source changes.  The C03 bridge needs BridgeC03.vo of part_proofs."""
+    b = ctx.coq_build_cached(["C17/NestModel.v", "C17/NestAgree.v", "C17/PropsNest.v"], deps=NEST_DEPS)
+    if b["ok"] and proofs_ok:
+        b = ctx.coq_build_cached(["C17/NestBridge.v", "C17/PropsNestBridge.v"],
+                                 deps=NEST_DEPS + ["C03/LIR.v", "C03/ArithSpec.v", "C03/ConvSpec.v", "C17/BridgeC03.v", "C17/NestModel.v", "C17/NestAgree.v"])
+    return b
+
+
+def prebuild(ctx):
+    build, _ = part_proofs(ctx)
+    if build.get("gen") and build.get("ok"):
+        build_nest(ctx, True)
+
+
 def run(ctx):
     cfgs = configs(ctx.tier)
     if ctx.tier == "quick":
@@ -1169,6 +1203,21 @@ def run(ctx):
     total += n
     failing += nf
     total += constant_probes(ctx, cfgs[0])
+    # extension (session 3): nested constant expressions, visit_Compare on all literal kinds, flags / struct constants
+    _ta = _t.time()
+    nest_build = {"ok": False, "file": "C17/NestModel.v", "failed_lemma": None, "out": "models not built"}
+    if model_ok:
+        nest_build = build_nest(ctx, build["ok"])
+    nest_model_ok = model_ok and (nest_build["ok"] or "NestModel" not in nest_build.get("file", ""))
+    try:
+        n, nf = c17_nest.run(ctx, cfgs, COQ_PRELUDE, nest_model_ok)
+        total += n
+    except RuntimeError as e:  # the model does not evaluate
+        ctx.violation("correspondence-broken", "nested-expression model does not evaluate", {"error": str(e)[-600:]})
+    if model_ok and not nest_build["ok"] and not any(v["kind"] == "failing-input" for v in ctx.violations):
+        ctx.violation("theorem-broken", f"{nest_build.get('failed_lemma')} in {nest_build['file']}",
+                      {"theorem": nest_build.get("failed_lemma"), "file": nest_build["file"], "coq_output": nest_build["out"][-1500:]})
+    ctx.corr["phase_seconds"]["nested"] = round(_t.time() - _ta, 1)
     ctx.corr["probes"] = len(probes)
     ctx.corr["probe_forms"] = sorted({p.form for p in probes})
     ctx.corr["probe_types"] = [P.tname(t) for t in types]
@@ -1202,13 +1251,15 @@ def run(ctx):
         for m in mism[:5]:
             ctx.violation("correspondence-broken", "model prediction disagrees with the compiled probe (no value conflict between the two sides)", m)
     ctx.corr["evaluations"] = total
-    ctx.corr["distinct_nontrivial"] = ctx.corr.get("model_tie_cases", 0) + len(probes)
+    ctx.corr["distinct_nontrivial"] = ctx.corr.get("model_tie_cases", 0) + len(probes) + ctx.corr.get("nest_cases", 0)
     ctx.corr["rule"] = ("evaluations = real-folder runs + probe calls (per configuration); distinct = distinct (form, operands) model-tie "
-                        "cases + distinct paired probes (form, type, operands)")
+                        "cases + distinct paired probes (form, type, operands) + distinct generated nested expressions")
     ctx.trusted += ["Coq 8.16.1 kernel + vm_compute",
                     "tools/vlib/py2coq.py + tools/vlib/c17_gen.py (method puller: integer instantiation, oracles for float/type-lattice guards); "
                     "validated each run by the real-ConstantFolder-vs-model differential",
                     "coq/C17/ArithSpec.v: hand-written run-time specification, tied to compiled code by paired probes on pyrevm only",
-                    "coq/C17/FoldModel.v wrapper (shift bound, literal range check, decimal hand model): tied by differential only"]
+                    "coq/C17/FoldModel.v wrapper (shift bound, literal range check, decimal hand model): tied by differential only",
+                    "coq/C17/NestModel.v (ConstantFolder.visit dispatch, ExprVisitor per-node validation of folded values, visit_Compare on "
+                    "literal kinds): hand model tied by the generated-tree differential against the real front end and by twin probes"]
     ctx.assumptions += ["operands are in range of the operand type (they are ABI-valid calldata on the run-time side)",
                         "oracle parameters (Pow float guard, min/max common-type test) arbitrary: theorems hold for every oracle"]
